@@ -424,6 +424,29 @@ theorem guestRegionFromRange_ok_iff (r : Req) (guestBase page : Nat) (k : Kernel
     · simp [hlt]
     · simp [hlt]
 
+/-! ### `fds_overlap` (a convenience check on two built regions) -/
+/-- for regions built through the checked constructors (`start + len` fits, `len > 0`) on one descriptor,
+    `fds_overlap` is exactly "the two file ranges intersect", and it does not overflow -/
+theorem fdsOverlap_spec (s1 l1 s2 l2 : Nat) (h1 : s1 + l1 < U) (h2 : s2 + l2 < U) (p1 : 0 < l1) (p2 : 0 < l2) :
+    fdsOverlap true (some (s1, l1)) (some (s2, l2)) = .ok (decide (max s1 s2 < min (s1 + l1) (s2 + l2))) := by
+  unfold fdsOverlap addP
+  by_cases h : s1 < s2
+  · simp only [h, if_true, h1, Res.bind_ok, Res.pure_eq]
+    congr 1
+    simp only [decide_eq_decide]
+    omega
+  · simp only [h, if_false, if_true, h2, Res.bind_ok, Res.pure_eq]
+    congr 1
+    simp only [decide_eq_decide]
+    omega
+
+theorem fdsOverlap_other_fd (a b : Option (Nat × Nat)) : fdsOverlap false a b = .ok false := by
+  unfold fdsOverlap; cases a <;> cases b <;> simp
+
+theorem fdsOverlap_no_file (sameFd : Bool) (b : Option (Nat × Nat)) :
+    fdsOverlap sameFd none b = .ok false ∧ fdsOverlap sameFd b none = .ok false := by
+  unfold fdsOverlap; cases b <;> simp
+
 /-! ### non-vacuity: concrete requests through the whole function -/
 def grantReq : Req := { size := 0x2000, file := some { fileLen := 0x10000, start := 0 }, prot := none, flags := none,
                         xenFlags := 0x2, xenData := 7, guestBase := 0x5000 }
@@ -458,3 +481,6 @@ end VmMem
 #print axioms VmMem.C15x.fromRange_all_succeed_ok
 #print axioms VmMem.C15x.guestRegionFromRange_error_leaves_nothing
 #print axioms VmMem.C15x.guestRegionFromRange_ok_iff
+#print axioms VmMem.C15x.fdsOverlap_spec
+#print axioms VmMem.C15x.fdsOverlap_other_fd
+#print axioms VmMem.C15x.fdsOverlap_no_file
